@@ -41,6 +41,30 @@ static LHAFileHeader one_header;
 static unsigned served, nmembers, failed, decided;
 SEQ_DECL(u8, verdict);
 LHAFileHeader *lha_filter_next_file(LHAFilter *filter) { (void) filter; if (served >= nmembers) return NULL; ++served; return &one_header; }
+#ifdef REAL_MEMBERS
+/* small member count, REAL per-member functions: the reader's verdict (lha_reader_check / lha_reader_extract) is arbitrary */
+static char one_name[2] = "a";
+int lha_reader_check(LHAReader *r, LHADecoderProgressCallback cb, void *d)
+{
+	int ok = SEQ_NEXT(u8, verdict) & 1;
+	(void) r;
+	if (SEQ_NEXT(u8, verdict) & 1) cb(0, 1, d);       /* the progress callback is invoked or not (e.g. unsupported method) */
+	++decided; if (!ok) ++failed;
+	return ok;
+}
+int lha_reader_extract(LHAReader *r, char *f, LHADecoderProgressCallback cb, void *d)
+{
+	int ok = SEQ_NEXT(u8, verdict) & 1;
+	(void) r; (void) f;
+	if (SEQ_NEXT(u8, verdict) & 1) cb(0, 1, d);
+	++decided; if (!ok) ++failed;
+	return ok;
+}
+int lha_reader_current_is_fake(LHAReader *r) { (void) r; return 0; }
+size_t lha_reader_read(LHAReader *r, void *b, size_t n) { (void) r; (void) b; (void) n; return 0; }
+LHAFileType lha_arch_exists(char *f) { (void) f; return LHA_FILE_NONE; }
+int lha_arch_mkdir(char *p, unsigned int m) { (void) p; (void) m; return 1; }
+#else
 /* replace the real per-member functions (renamed real_* by the driver) */
 static int test_archived_file_crc(LHAReader *reader, LHAFileHeader *header, LHAOptions *options)
 {
@@ -56,6 +80,7 @@ static int extract_archived_file(LHAReader *reader, LHAFileHeader *header, LHAOp
 	++decided; if (!ok) ++failed;
 	return ok;
 }
+#endif
 
 void harness(void)
 {
@@ -65,6 +90,11 @@ void harness(void)
 	int rc;
 	ASSUME(n <= NM);
 	nmembers = n;
+#ifdef REAL_MEMBERS
+	memset(&one_header, 0, sizeof(one_header));
+	one_header.filename = one_name;
+	memcpy(one_header.compress_method, "-lh5-", 6);
+#endif
 	argv[0] = s_prog; argv[1] = s_cmd; argv[2] = s_arc; argv[3] = NULL;
 	rc = lha_main(3, argv);
 	CHECK(decided == n, "every selected member is tested/extracted exactly once");
